@@ -763,6 +763,10 @@ def scenario(name, rng, noload=False):
         return kwnruns.build_binary(shape=name.split(':', 1)[1], ratio=rng.choice([1, 2, 3]), **small), 3600 * 5
     if name == 'nicral':
         return kwnruns.build_ternary(), 3600 * 10
+    if name == 'nicral-trace':
+        # a trace solute (far below 1e-8): its matrix content must be carried as it is, the only permitted deviation being the
+        # documented clamp of a NEGATIVE composition
+        return kwnruns.build_ternary(x0=(rng.uniform(0.14, 0.16), 10 ** rng.uniform(-10, -8.5))), 3600 * 10
     if name == 'nicral-faults':
         # transient backend failures (no equilibrium returned) at scripted growth requests, after precipitates exist
         m = kwnruns.build_ternary()
@@ -879,12 +883,32 @@ def _reset_part(ctx, res, prop, name, m, rec, cfg, pbm0, cap2, driver=True):
         res.disagree('reset() (KWNFull.resetState) vs implementation, scenario %s' % name, desc, [(w, a) for w, a, b in d[:6]], [(w, b) for w, a, b in d[:6]])
     # (3) the run after the reset, refined
     detach(rec)
+    reconf = None
+    if 'reconfig' in name.split('@')[1:]:
+        # `@reconfig`: between reset() and the next run the user changes parameters that enter the mass balance / nucleation
+        # (site type, molar volume of the precipitate): the second run must be that of a model configured so from the start
+        rr = _scenario_rng(ctx, name + '/reconfig')
+        site = rr.choice(['bulk', 'grain boundaries', 'grain boundaries', 'dislocations'])
+        vr = rr.choice([0.9, 1.08, 1.25])
+
+        def reconf(mm, site=site, vr=vr):
+            from kawin.precipitation import VolumeParameter
+            mm.setGrainBoundaryEnergy(0.12)       # admissible ratio to the interfacial energy for grain-boundary sites
+            mm.setNucleationSite(site)
+            for pp in mm.precipitateParameters:
+                mm.setVolumeBeta(mm.matrixParameters.volume.Va * vr, VolumeParameter.ATOMIC_VOLUME, mm.matrixParameters.volume.atomsPerCell, phase=pp.phase)
+        reconf(m)
+        desc = dict(desc, reconfigured=dict(site=site, vbeta_over_valpha=vr))
     rec2 = attach(m, capture_setup=True)
     try:
         m._verif_obs = False
         m.couplingModels = [c for c in m.couplingModels if type(c).__name__ != 'Obs']
         solver = 'rk4' if 'rk4' in name.split('@')[1:] else 'euler'
         kwnruns.run(m, rec.simt, solver=solver, max_steps=cap2)
+        if reconf is not None:
+            cfg = config(m)          # the constants the second run was configured with
+            if rec.oracles:
+                step_oracles(res, rec2, cfg, name + '/after-reconfig', rec.oracles)
         n2, bad2, _ = refine(prop, rec2, cfg) if driver else (len(rec2.steps), [], None)
         d2 = [] if not driver else refine_setup(prop, rec2, cfg) if rec2.setup is not None else [('setup() not captured after reset', '', '')]
         res.count('composed-step:%s:steps-after-reset' % name, n2)
@@ -898,6 +922,8 @@ def _reset_part(ctx, res, prop, name, m, rec, cfg, pbm0, cap2, driver=True):
     f, _ = scenario(name, _scenario_rng(ctx, name), noload=True)
     if 'record' in name.split('@')[1:]:
         f.setPSDrecording(True)
+    if reconf is not None:
+        reconf(f)
     kwnruns.run(f, rec.simt, solver=solver, max_steps=cap2)
     na, nb = int(m.pData.n), int(f.pData.n)
     if na != nb:
@@ -957,7 +983,7 @@ def _one(ctx, res, prop, name, cap, observer, oracles=(), driver=True):
         if not driver:
             # oracle-only pass (search for a failing input after a proof / the correspondence broke, replay): no model involved
             if 'reset' in opts:
-                rec.simt = simt
+                rec.simt = simt; rec.oracles = oracles
                 _reset_part(ctx, res, prop, name, m, rec, cfg, pbm0, max(10, cap // 3), driver=False)
             res.traces += 1
             res.count('composed-step:%s:steps(oracle-only)' % name, len(rec.steps))
@@ -973,7 +999,7 @@ def _one(ctx, res, prop, name, cap, observer, oracles=(), driver=True):
                 res.disagree('setup() (KWNFull.setupState) vs implementation, scenario %s' % name, dict(scenario=name, seed=ctx.seed),
                              [(w, a) for w, a, b in d[:6]], [(w, b) for w, a, b in d[:6]])
         if 'reset' in opts:
-            rec.simt = simt
+            rec.simt = simt; rec.oracles = oracles
             _reset_part(ctx, res, prop, name, m, rec, cfg, pbm0, max(10, cap // 3))
     finally:
         detach(rec)
@@ -1004,6 +1030,7 @@ ORACLES = {
     'volume':    'the stored distribution after the step holds the particle volume of the state the row was computed from, up to the <1/m3 truncation (C01/C02)',
     'recorded':  'the recorded size distribution of a step is the stored one (C02)',
     'nuc':       'negative driving force => no nucleation terms; non-zero critical radius >= Rmin; no nucleation radius without it (C14)',
+    'rowbal':    'every recorded row satisfies the solute balance for every unclamped solute (RowBal on the implementation, C01)',
     'stored':    'the density a row reports is the zeroth moment of the distribution held after that step, up to the classes below one particle (C02)',
     'topflow':   'no more than one particle per m3 leaves through the largest class in a step: the number density changes only by nucleation and by dissolution through the smallest class (C02)',
     'lookup':    'binary: lookup table computed within maxTempChange of the newest recorded temperature (C13)',
@@ -1157,6 +1184,25 @@ def step_oracles(res, rec, cfg, name, which):
             if not vlib.close(yp['dens'], m0 if m0 >= cfg['minDens'] else yp['dens'], 1e-9) or (m0 >= cfg['minDens'] and yp['dens'] == 0):
                 res.violate('composed:setup-row-not-moments', 'the row written by setup() reports a number density that is not the zeroth moment of the '
                             'distribution the model holds after setup()', dict(scenario=name, phase=p), yp['dens'], m0)
+    if 'rowbal' in which:
+        # C01 on the recorded rows themselves (theorem RowBal / runFromSetup_rowBal evaluated on the implementation): for every
+        # element that is not clamped and while the recorded total fraction is below 1,
+        # initial content = matrix composition x (1 - total fraction) + precipitate content
+        x0 = np.asarray(cfg['x0'], dtype=float)
+        for i, st in enumerate(steps):
+            row = st['post']['hist'][0]
+            vf = float(sum(yp['volFrac'] for yp in row['ph']))
+            if not vf < 1:
+                continue
+            for e in range(len(x0)):
+                fc = float(sum(np.atleast_1d(yp['fconc'])[e] for yp in row['ph']))
+                if (x0[e] - fc) / (1 - vf) < 0:
+                    continue              # the documented clamp of a negative composition
+                got = float(np.atleast_1d(row['comp'])[e]) * (1 - vf) + fc
+                if abs(got - x0[e]) > 1e-9 * abs(x0[e]) + 1e-300:
+                    res.violate('composed:row-solute-balance', 'a recorded row does not satisfy initial content = matrix composition x (1 - total fraction) + precipitate content for an unclamped solute',
+                                dict(scenario=name, step=i, element=e, t=row['time'], x0=float(x0[e]), total_fraction=vf, precipitate_content=fc, matrix=float(np.atleast_1d(row['comp'])[e])), got, float(x0[e]))
+                    break
     if 'stored' in which:
         # C02: the density and fraction a row reports are the moments of the distribution the model HOLDS after that step, up to the
         # removal of classes with less than one particle (UpdatePBMEuler); steps that re-meshed to fewer classes are skipped (the
@@ -1169,6 +1215,15 @@ def step_oracles(res, rec, cfg, name, which):
                     continue        # re-meshed (not merely extended)
                 yp = st['post']['hist'][0]['ph'][p]
                 m0 = float(np.sum(ph['psd']))
+                # fraction: Vm_alpha / Vm_beta * volume factor * third moment, with the constants the run is configured with
+                pc = cfg['phases'][p]
+                m3 = float(np.sum(np.asarray(ph['psd'], dtype=float) * np.asarray(ph['size'], dtype=float) ** 3))
+                vf = cfg['sites'][6] / pc['vmBeta'] * pc['volumeFactor'] * m3
+                slack = cfg['sites'][6] / pc['vmBeta'] * pc['volumeFactor'] * float(np.sum(np.asarray(ph['size'], dtype=float) ** 3))
+                if abs(yp['volFrac'] - vf) > slack + 1e-9 * max(abs(vf), abs(yp['volFrac'])):
+                    res.violate('composed:row-fraction-not-moment-of-stored-distribution', 'the volume fraction recorded for a step is not Vm_alpha/Vm_beta x volume factor x third moment of the distribution the model holds after that step (constants as configured now)',
+                                dict(scenario=name, step=i, phase=p, bins=ph['bins'], t=st['post']['hist'][0]['time'], vmBeta=pc['vmBeta'], volumeFactor=pc['volumeFactor']), yp['volFrac'], vf)
+                    break
                 if abs(yp['dens'] - m0) > ph['bins'] + 1 + 1e-9 * max(m0, yp['dens']):
                     res.violate('composed:row-density-not-moment-of-stored-distribution', 'the number density recorded for a step differs from the zeroth moment of the distribution the model holds after that step by more than the classes below one particle',
                                 dict(scenario=name, step=i, phase=p, bins=ph['bins'], t=st['post']['hist'][0]['time']), yp['dens'], m0)
